@@ -128,7 +128,12 @@ def run(ctx):
                 mx = strip_refs(c['a'])
                 thr = strip_refs(c['b'])
                 is_max = mx[0] == 'call' and short(mx[1]) == 'max' and 'f64' in mx[1] and len(mx[2]) == 2
-                ok2 = is_max and thr[0] in ('param', 'upvar')
+                thr_top = thr
+                if thr[0] not in ('param', 'upvar') and f.is_closure:
+                    # the threshold reached through a capture of a capture (a predicate closure that captured it,
+                    # itself captured by the closure holding the loop): express it in the enclosing function's terms
+                    thr_top = strip_refs(q.simplify(q.resolve_captures(lib, f, thr)))
+                ok2 = is_max and (thr[0] in ('param', 'upvar') or thr_top[0] == 'param')
                 detail = 'leaves on the true edge of Lt(%s, %s)' % (facts.show(mx)[:60], facts.show(thr))
                 if ok2:
                     test = (a, c, mx, thr)
@@ -210,7 +215,15 @@ def run(ctx):
                     breaks='the test sees last iteration\'s bound or only one player\'s bound')
         # ---------------- O4
         rule = 'C09.O4-threshold-non-interference'
-        uses = threshold_uses(f, thr)
+        thr_use = thr
+        if thr[0] not in ('param', 'upvar'):
+            # reached through a captured predicate closure: that capture is what the function reads
+            base = [x for x in facts.walk(thr) if x[0] in ('upvar', 'param')]
+            thr_use = base[0] if base else thr
+        uses = threshold_uses(f, thr_use)
+        # building a predicate closure that captures the threshold is not a use when every call of that closure was
+        # inlined (the closure function is gone): its body — the exit test — is judged where it runs
+        uses = [(bi, k, e) for bi, k, e in uses if not (k == 'assign' and strip_refs(e)[0] == 'agg' and strip_refs(e)[1].startswith('closure:') and strip_refs(e)[1][len('closure:'):] not in lib.fns)]
         def is_the_test(e):
             # the exit comparison itself, wherever it is evaluated (e.g. in a block of an inlined predicate helper)
             cm = facts.cmp_of(strip_refs(e))
@@ -219,7 +232,7 @@ def run(ctx):
             ca, cb_ = norm(cond['a']), norm(cond['b'])
             return (cm[0] == 'Lt' and norm(cm[1]) == ca and norm(cm[2]) == cb_) or (cm[0] == 'Gt' and norm(cm[1]) == cb_ and norm(cm[2]) == ca)
         bad = [(bi, k, facts.show(e)[:80]) for bi, k, e in uses if not (k in ('switch', 'assign') and (bi == tb or is_the_test(e)))]
-        ctx.verdict(not bad and bool(uses), rule, '%s:%s' % (rule, name),
+        ctx.verdict(not bad and (bool(uses) or thr_use is not thr), rule, '%s:%s' % (rule, name),
                     'the threshold is read by the exit comparison and by nothing else in the loop function', f.where(tb),
                     '%d use(s); other uses: %s' % (len(uses), bad), breaks='the threshold changes what an iteration computes, so (r, N) and (0, t*) runs differ')
         # ---------------- O5
@@ -280,7 +293,15 @@ def run(ctx):
         if thr is None:
             ctx.anchor_lost(rule, suf + ': f64 threshold parameter')
             continue
-        uses = threshold_uses(f, thr)
+        thr_use = thr
+        if thr[0] not in ('param', 'upvar'):
+            # reached through a captured predicate closure: that capture is what the function reads
+            base = [x for x in facts.walk(thr) if x[0] in ('upvar', 'param')]
+            thr_use = base[0] if base else thr
+        uses = threshold_uses(f, thr_use)
+        # building a predicate closure that captures the threshold is not a use when every call of that closure was
+        # inlined (the closure function is gone): its body — the exit test — is judged where it runs
+        uses = [(bi, k, e) for bi, k, e in uses if not (k == 'assign' and strip_refs(e)[0] == 'agg' and strip_refs(e)[1].startswith('closure:') and strip_refs(e)[1][len('closure:'):] not in lib.fns)]
         bad = []
         for bi, k, e in uses:
             if k.startswith('arg') and e[0] == 'call' and (short(e[1]).startswith('solve_') or short(e[1]) == 'scope'):
